@@ -29,6 +29,18 @@ def runC17 (op : String) (j : Json) : R Json := do
         let k ← getInts j "impl_kept"
         pure (Json.bool (SpecOKIn (pairsOf k) x out))
       else pure Json.null
+    -- "tmap" = [a, b] with a ≥ 1: the same input seen through t ↦ a·t + b (`Inp.mapTimes`): the selection must not move
+    -- and the kept chunks are the images (`selection_order_invariant`; a self-check of the machinery)
+    let mapInv ← if hasFld j "tmap" then do
+        let ab ← getInts j "tmap"
+        match ab with
+        | [a, b] =>
+          let f := fun (t : Int) => a * t + b
+          let y := x.mapTimes f
+          pure (Json.bool (decide (1 ≤ a) && selectWith (fun l n => l.take n) y == m &&
+                           chunksKept y.bounds y.nKept == (chunksKept x.bounds x.nKept).map f))
+        | _ => .error "tmap: [a, b] expected"
+      else pure Json.null
     let implKept ← if hasFld j "impl_kept" then do
         let k ← getInts j "impl_kept"
         pure (Json.bool (keptOKAny x.bounds x.nKept k))
@@ -36,7 +48,7 @@ def runC17 (op : String) (j : Json) : R Json := do
     pure (Json.mkObj [("model", jNats m), ("random", Json.bool random),
                       ("model_spec", Json.bool (SpecOK x m)),
                       ("kept", jInts (chunksKept x.bounds x.nKept)),
-                      ("impl_spec", implSpec), ("impl_kept_ok", implKept)])
+                      ("impl_spec", implSpec), ("impl_kept_ok", implKept), ("map_invariant", mapInv)])
   | _ => .error s!"C17: unknown op {op}"
 
 end PhyVerif.Driver
